@@ -512,3 +512,12 @@ CLAIMS["C08"]["text"] += _DIRF.format(thm="FcProps/KTieMergeVD.lean, KTieMergeAD
 CLAIMS["C17"]["text"] += _DIRF.format(thm="FcProps/KTieMergeVD.lean, KTieMergeAD.lean")
 CLAIMS["C09"]["text"] += _DIRF.format(thm="FcProps/KTieZipVD.lean, KTieZipAD.lean: poll_tie, drop_tie, new_wf")
 CLAIMS["C02"]["text"] += " The destructor ties also hold in the no_std flavour (TieJoinVD/AD.drop_tie, TieTryJoinVD/AD.drop_tie / drop_failed_tie, TieZipVD/AD.drop_tie)."
+
+_GRPD = (" Alloc-only build (no std feature): the same source compiled against utils/wakers/vec/no_std.rs is translated too "
+         "(lean/FcGen/KSrcGrpD.lean) and tied to the model in direct mode - FcProps/KTieGrpD.lean (set view: queries_tie, "
+         "reserve_tie, insert_tie, remove_tie, with_capacity_tie; the model's unused `cap` field is a ghost there, the exact "
+         "std statements are refuted by decide and kept as *_exact under the hypothesis that the ghost does not move)")
+CLAIMS["C11"]["text"] += _GRPD + "."
+CLAIMS["C12"]["text"] += _GRPD + (", FcProps/KTieGrpPollDS.lean (StreamGroup::poll_next_inner refines Eng.poll group; hypothesis SlotNamed: "
+    "members named by their keys - the environment's slot annotation of childBegin for a caller's waker is the member's number, "
+    "the model's is the key; the statement without it is refuted, v0_false).")
